@@ -304,6 +304,41 @@ def runG (fn : String) (cfgs : String) (args : List String) : String :=
     | .nofuel => "HANG"
     | .stuck m => "STUCK:" ++ m.replace " " "_"
 
+/-! `utf8 <mode> <lo> <hi>`: digest of the `Utf8` model over a whole range of inputs, compared by `harness/cmd/utf8tie` with the digest
+    the real `unicode/utf8` produces.  Modes `d1 d2 d3`: every byte string of that length (`v` big-endian); `d4c`: four bytes, the first two
+    arbitrary, the last two from eight boundary values; `d4`: every four-byte string in the range; per string: `DecodeRune`, `DecodeLastRune`
+    and the rune count.  Mode `enc`: runes `lo-2^31 … hi-2^31`: `EncodeRune`/`string(r)`, `RuneLen`, `ValidRune`. -/
+def utfMix (acc : UInt64) (x : Nat) : UInt64 := (acc ^^^ UInt64.ofNat x) * 1099511628211
+
+def utfCls : Array UInt8 := #[0x00, 0x7F, 0x80, 0x8F, 0x90, 0xBF, 0xC0, 0xFF]
+
+def utfBytes (mode : String) (v : Nat) : Bytes :=
+  let b (k : Nat) : UInt8 := UInt8.ofNat (v / 256 ^ k % 256)
+  match mode with
+  | "d1" => [b 0]
+  | "d2" => [b 1, b 0]
+  | "d3" => [b 2, b 1, b 0]
+  | "d4" => [b 3, b 2, b 1, b 0]
+  | _ => [UInt8.ofNat (v / 16384 % 256), UInt8.ofNat (v / 64 % 256), utfCls[v / 8 % 8]!, utfCls[v % 8]!]
+
+def utfSweep (mode : String) (lo hi : Nat) : UInt64 := Id.run do
+  let mut acc : UInt64 := 14695981039346656037
+  for v in [lo:hi] do
+    if mode == "enc" then
+      let r : Int := (v : Int) - 2147483648
+      let e := GoSsa.encodeGo r
+      acc := utfMix acc (e.foldl (fun a b => a * 256 + b.toNat) e.length)
+      acc := utfMix acc (GoSsa.runeLenGo r + 1).toNat
+      acc := utfMix acc (if GoSsa.validRuneGo r then 1 else 0)
+    else
+      let l := utfBytes mode v
+      let p := decodeRune l
+      let q := decodeLast l
+      acc := utfMix acc (p.1 * 8 + p.2)
+      acc := utfMix acc (q.1 * 8 + q.2)
+      acc := utfMix acc (dec l).length
+  return acc
+
 partial def loop (h : IO.FS.Stream) (out : IO.FS.Stream) : IO Unit := do
   let line ← h.getLine
   if line.isEmpty then
@@ -315,6 +350,7 @@ partial def loop (h : IO.FS.Stream) (out : IO.FS.Stream) : IO Unit := do
   | "asm" :: args => out.putStrLn (runAsm args)
   | "step" :: args => out.putStrLn (runStep false args)
   | "jump" :: args => out.putStrLn (runStep true args)
+  | "utf8" :: mode :: lo :: hi :: _ => out.putStrLn (toString (utfSweep mode lo.toNat! hi.toNat!).toNat)
   | fn :: cfg :: args =>
     let (a, s) := run fn (mkCfg cfg) args
     out.putStrLn (a ++ "\t" ++ s ++ "\t" ++ runM fn (mkCfg cfg) args ++ "\t" ++ runG fn cfg args)
